@@ -5,8 +5,13 @@ package app
 // CheckTx of a bid transaction must leave nothing behind in them.
 
 import (
+	"math/big"
+
 	"github.com/Oneledger/protocol/action"
+	action_nd "github.com/Oneledger/protocol/action/network_delegation"
 	"github.com/Oneledger/protocol/data/balance"
+	"github.com/Oneledger/protocol/data/keys"
+	netwkDeleg "github.com/Oneledger/protocol/data/network_delegation"
 	"github.com/Oneledger/protocol/data/ons"
 	"github.com/Oneledger/protocol/external_apps/bid/bid_action"
 	"github.com/Oneledger/protocol/external_apps/bid/bid_data"
@@ -92,4 +97,75 @@ func SV_C07_bid_checktx() {
 	sv.Assert(ta2.equal(tb2), "next-block-has-the-same-results")
 	sv.Observe("code", ta1.Codes[0])
 	sv.Cover(ta1.Codes[0] == 0, "decision-delivered")
+}
+
+// SV_C07_deleg_checktx: the network-delegation master store is one object whose
+// stores carry a selected prefix; a CheckTx must not leave a selection behind
+// that a delivery then uses.
+//
+// sv:bounds genesis with 2 validators; A and B each with an active network delegation of 100 OLT and a reward balance of 50 OLT, the delegation pool funded accordingly; block 3 carries one delegation transaction of A (delegate, undelegate, withdraw rewards or reinvest, amount symbolic), block 4 is empty; one injected CheckTx of a delegation transaction of B (any of the four kinds, amount symbolic) at any of the 5 call boundaries of block 3
+// sv:outside several CheckTx calls; real concurrency
+// sv:goal DeliverTx codes / gas / data, validator updates and the ordered write set of both blocks are the same with and without the injected CheckTx
+func SV_C07_deleg_checktx() {
+	sv.NominalSizes(64)
+	nv := 2
+	fundA, fundB := svNonNeg("fundA"), svNonNeg("fundB")
+	mk := func() *App {
+		app := svNewApp()
+		svInstallIndexer()
+		svGenesisWithValidators(app, []int64{3000000, 3000000})
+		svFundOLT(app, svParty_(0).Addr, fundA)
+		svFundOLT(app, svParty_(1).Addr, fundB)
+		ctx := &app.Context
+		ds := ctx.netwkDelegators.Deleg.WithState(ctx.deliver)
+		rs := ctx.netwkDelegators.Rewards.WithState(ctx.deliver)
+		hundred := new(big.Int).Mul(big.NewInt(100), svWei)
+		fifty := new(big.Int).Mul(big.NewInt(50), svWei)
+		for i := 0; i < 2; i++ {
+			c := svCoin(balance.NewAmountFromBigInt(hundred))
+			if err := ds.WithPrefix(netwkDeleg.ActiveType).Set(svParty_(i).Addr, &c); err != nil {
+				sv.Unreachable("active delegation")
+			}
+			if err := rs.AddRewardsBalance(svParty_(i).Addr, balance.NewAmountFromBigInt(fifty)); err != nil {
+				sv.Unreachable("reward balance")
+			}
+		}
+		svFundOLT(app, keys.Address(netwkDeleg.DELEGATION_POOL_KEY), new(big.Int).Mul(big.NewInt(200), svWei))
+		svFundOLT(app, keys.Address("rewardpool"), new(big.Int).Mul(big.NewInt(1000), svWei))
+		svCommitBlock(app)
+		return app
+	}
+	build := func(tag string, party int) action.SignedTx {
+		addr := svParty_(party).Addr
+		amt := action.Amount{Currency: "OLT", Value: *balance.NewAmountFromBigInt(svNonNeg(tag + ".amount"))}
+		var raw action.RawTx
+		switch sv.Choice(tag+".kind", 4) {
+		case 0:
+			raw = svRaw(action.ADD_NETWORK_DELEGATE, &action_nd.AddNetworkDelegation{DelegationAddress: addr, Amount: amt})
+		case 1:
+			raw = svRaw(action.NETWORK_UNDELEGATE, &action_nd.Undelegate{Delegator: addr, Amount: amt})
+		case 2:
+			raw = svRaw(action.REWARDS_WITHDRAW_NETWORK_DELEGATE, &action_nd.Withdraw{Delegator: addr, Amount: amt})
+		default:
+			raw = svRaw(action.REWARDS_REINVEST_NETWORK_DELEGATE, &action_nd.Reinvest{Delegator: addr, Amount: amt})
+		}
+		return svSign(raw, party)
+	}
+	a, b := mk(), mk()
+	tx := build("blk", 0)
+	chk := build("chk", 1)
+	where := sv.Choice("inject.at", 5)
+	ta1 := svBlock(a, 3, nv, []action.SignedTx{tx}, func(pos int) {
+		if pos == where {
+			r := svCheckEnvGas(a, chk)
+			sv.Cover(r.Code == 0, "checktx-accepted")
+		}
+	})
+	tb1 := svBlock(b, 3, nv, []action.SignedTx{tx}, nil)
+	sv.Assert(ta1.equal(tb1), "block-with-injected-delegation-checktx-has-the-same-results")
+	ta2 := svBlock(a, 4, nv, nil, nil)
+	tb2 := svBlock(b, 4, nv, nil, nil)
+	sv.Assert(ta2.equal(tb2), "next-block-has-the-same-results")
+	sv.Observe("code", ta1.Codes[0])
+	sv.Cover(ta1.Codes[0] == 0, "delivered-ok")
 }
